@@ -109,7 +109,9 @@ class Run:
                     synq = PollQueue(ctx=ctx.get_context())
                 counter = ctx.Value('i')
                 event = ctx.Event() if cfg.get('end') == 'event' else None
-                w = bp.Worker(inq, outq, synq, None, (), cfg.get('quota'),
+                init = {None: None, 'reset': tasks.init_reset_signals,
+                        'own': tasks.init_own_handlers}[cfg.get('init')]
+                w = bp.Worker(inq, outq, synq, init, (), cfg.get('quota'),
                               event, on_exit_cb, True, True, None, counter)
                 proc = ctx.Process(target=w)
                 proc.daemon = True
@@ -394,7 +396,15 @@ def spec_check(cfg, r, inject):
                 continue                 # refused: not run, not counted
             want.append(10 + k)
             n += 1
-        if cfg.get('end', 'sentinel') != 'event' and ran != want:
+        if cfg.get('end', 'sentinel') == 'event':
+            # told to leave through the shutdown event: it need not read
+            # what is still in the pipe, but every job it did take off the
+            # pipe is announced, run and answered
+            if r['unread'] == 0:
+                want = [j for j in want if j - 10 < len(r['fed'])]
+            else:
+                want = ran
+        if ran != want:
             return ('worker executed jobs %r, the reference worker (quota '
                     '%r, handshake answers %r) executes %r' % (
                         ran, quota, list(syn), want))
@@ -540,6 +550,11 @@ def configs(tier):
     for name in ('unpicklable_os', 'unpicklable_value'):
         for quota in (None, 1):
             out.append(dict(tasks=[name, 'ok'], quota=quota))
+    # an application initializer that touches signal dispositions: the
+    # worker's own handlers are installed after it and still decide
+    for init in ('reset', 'own'):
+        out.append(dict(tasks=['catch', 'ok'], quota=None, init=init))
+        out.append(dict(tasks=['ok'], quota=1, init=init))
     # a parent that answers the handshake only after more than a minute
     # (the worker's 'WAIT FOR ACK TIMEOUT' path): the answer still decides
     for syn in (['nack', 'ack'], ['ack', 'nack']):
